@@ -27,7 +27,7 @@ impl Profile for EntryPointTwin {
     }
     fn gen_world(&self, rng: &mut Rng, reg: &Reg) -> WorldPlan {
         let pool: Vec<&Entry> = reg.family("f2");
-        let n = rng.range(1, 3) as usize;
+        let n = rng.range(1, 3 + crate::extra_contracts()) as usize;
         let mut codes = vec![];
         let mut codes1 = vec![];
         for _ in 0..n {
@@ -61,7 +61,7 @@ impl Profile for EntryPointTwin {
         sg.queries = false;
         sg.fail_pm = *rng.pick(&[0, 150]);
         let accounts = &base.accounts;
-        let n = rng.range(3, 12);
+        let n = rng.range(3, 12 * crate::scale());
         let mut ops = vec![];
         for _ in 0..n {
             let c = rng.pick(&base.contracts).clone();
